@@ -168,6 +168,18 @@ class OSProxy:
     def makedirs(self, *a, **kw):
         return os.makedirs(*a, **kw)
 
+    def write(self, fd, data):
+        # a write(2) issued directly on a descriptor (not through a file object) is a site like any other:
+        # it can fail, be short (the caller has to loop), or be the crash point with a torn prefix
+        r = PLAN.hit("write", fd=fd, data=bytes(data), path=None)
+        if r is not None:
+            return os.write(fd, bytes(data)[:r])
+        return os.write(fd, data)
+
+    def fsync(self, fd):
+        PLAN.hit("fsync")
+        return os.fsync(fd)
+
 
 class TmpProxy:
     def __init__(self):
